@@ -209,7 +209,7 @@ class MultiStream(Stream):
                  characterization_factors: Optional[Dict[str, float]]=None, 
                  vlle: Optional[bool]=False, 
                  **phase_flows: Tuple[str, float]):
-        self.characterization_factors = {} if characterization_factors is None else {}
+        self.characterization_factors = {} if characterization_factors is None else characterization_factors
         self._thermal_condition = ThermalCondition(T, P)
         thermo = self._load_thermo(thermo)
         chemicals = thermo.chemicals
